@@ -100,7 +100,7 @@ def enclosing_fn(lines, lineno):
     return '?'
 
 
-def run_unit(unit, repo='/repo', rlimit=None, seed=None, threads=None, keep=True):
+def run_unit(unit, repo='/repo', rlimit=50, seed=None, threads=None, keep=True):
     t0 = time.time()
     os.makedirs(os.path.join(WORK, unit), exist_ok=True)
     out_path = os.path.join(WORK, unit, 'vx_%s.rs' % unit)
@@ -192,7 +192,7 @@ def main():
     ap = argparse.ArgumentParser()
     ap.add_argument('unit')
     ap.add_argument('--repo', default='/repo')
-    ap.add_argument('--rlimit', type=int)
+    ap.add_argument('--rlimit', type=int, default=50)
     ap.add_argument('--json', action='store_true')
     ap.add_argument('-v', action='store_true')
     a = ap.parse_args()
